@@ -1,5 +1,6 @@
 import Driver.HTable
 import Driver.Mutex
+import Driver.Join
 import Driver.Sched
 import Driver.Cond
 import Driver.Ledger
@@ -26,6 +27,7 @@ def main (args : List String) : IO UInt32 := do
   match args with
   | ["htable"] => Driver.HTable.main; return 0
   | ["mutex"] => Driver.Mutex.main; return 0
+  | ["join"] => Driver.Join.main; return 0
   | ["sched"] => Driver.Sched.main; return 0
   | ["cond"] => Driver.Cond.mainCond; return 0
   | ["waitlist"] => Driver.Cond.mainWl; return 0
